@@ -218,6 +218,18 @@ func poolConfigs(prop string, thorough bool) (cfgs []poolCfg, depth int) {
 					r.A.MaxSC = int(n) + 4
 					r.A.Fail = false
 					add(r)
+					// non-initial root: after one refresh (k=1) a second refresh is in flight
+					// while a call without deadline is still open (a response may arrive
+					// during the refresh)
+					q := c
+					q.Name += " root=second-refresh-inflight+open-call"
+					q.Setup = append(append([]string{}, c.Setup...),
+						"pick(plain,,L,g,d1)", "adv(2)", "done(0,cde)", "state(1,CONNECTING)", "state(1,READY)",
+						"pick(plain,,L,g,d1)", "pick(plain,,L,g)", "adv(3)", "done(0,cde)", "state(2,CONNECTING)")
+					q.A.MaxSC = int(n) + 4
+					q.A.Fail = false
+					q.A.Adv = []int{1, 3}
+					add(q)
 				}
 			}
 		}
@@ -252,6 +264,13 @@ func poolConfigs(prop string, thorough bool) (cfgs []poolCfg, depth int) {
 				}
 			}
 		}
+		// re-binding during a fallback episode: three channels, BIND/UNBIND in the alphabet,
+		// root: key bound to channel 0, channel 0 down, stand-in established
+		rb := poolCfg{Name: "C08 pool=3 rebind root=standin", Min: 3, Max: 3, WM: 100, Fallback: true,
+			Setup: append(readyPool(3), "pick(bind,,L,g)", "done(0,ok:k1)", "state(0,IDLE)", "pick(bound,k1,L,g)")}
+		rb.A = alphabet{States: "basic", Cmds: []string{"bind", "bound", "unbind"}, Keys: []string{"k1"}, Gens: []string{"L"},
+			Ctx: []string{"g"}, Done: []string{"ok", "ok:k1", "err"}, MaxOpen: 3, MaxSC: 4}
+		add(rb)
 	case "C09":
 		depth = 6
 		if thorough {
@@ -278,6 +297,12 @@ func poolConfigs(prop string, thorough bool) (cfgs []poolCfg, depth int) {
 				Ctx: []string{"g,d1"}, Done: []string{"ok", "cde"}, Adv: []int{2}, MaxOpen: 2, MaxSC: 4}
 			add(c)
 		}
+		// non-initial root: pool of one whose refresh is in flight
+		r := poolCfg{Name: "C20 min=1 max=1 root=refreshing", Min: 1, Max: 1, WM: 100, RefCalls: 1, RefMs: 1,
+			Setup: append(readyPool(1), "pick(plain,,L,g,d1)", "adv(2)", "done(0,cde)")}
+		r.A = alphabet{Resolve: []string{"a1", "a2"}, ResErr: true, States: "basic", Shutdown: true, Cmds: []string{"plain"}, Gens: []string{"L"},
+			Ctx: []string{"g,d1"}, Done: []string{"ok", "cde"}, Adv: []int{2}, MaxOpen: 2, MaxSC: 4}
+		add(r)
 	}
 	return
 }
@@ -291,12 +316,12 @@ func checkPool(c *vsched.RunCtx, prop string) {
 	drivers := map[string]string{
 		"C02": "pick-done,refresh-race",
 		"C03": "grow-race",
-		"C05": "grow-race,pick-done,refresh-race,rr-bind,rr-cancel,fallback-pick,fallback-two-pickers,resolve-pick,bind-unbind",
-		"C06": "grow-race,pick-done,refresh-race,rr-bind,rr-cancel,fallback-pick,fallback-two-pickers,resolve-pick,bind-unbind",
+		"C05": "grow-race,pick-done,refresh-race,rr-bind,rr-cancel,fallback-pick,fallback-two-pickers,resolve-pick,refresh-resolve,bind-unbind",
+		"C06": "grow-race,pick-done,refresh-race,rr-bind,rr-cancel,fallback-pick,fallback-two-pickers,resolve-pick,refresh-resolve,bind-unbind",
 		"C08": "fallback-pick,fallback-two-pickers",
 		"C07": "refresh-race",
 		"C09": "rr-bind,rr-cancel",
-		"C20": "resolve-pick",
+		"C20": "resolve-pick,refresh-resolve",
 	}[prop]
 	if c.Replay != nil {
 		if strings.HasPrefix(c.Replay.Harness, "sched:") {
